@@ -277,3 +277,55 @@ for _k in ('key', 'no-key'):
         }
         # hostile bytes (C11): nothing escapes from decoding; exceptions can only come from message handlers (authenticated content)
         may_raise = ['Exception']
+
+
+# ------------------------------------------------------------------------------------------ round trip (C09): decode(encode(packet))
+for _form in ('sealed', 'crc'):
+    @contract('connection.Packet.from_bytes', props=['C09'], variant='roundtrip-' + _form)
+    class _:
+        """decoding what Packet.to_bytes produced (its verified layout: c09_codec) for a packet of 0 or 1 messages, every payload
+        length, sealed or CRC form, followed by arbitrary trailing bytes: no exception, the same payload bytes, the same message.
+        (Packets of 2..255 messages: the split loop is verified for safety only - stated in the manifest.)"""
+        def setup(E, _form=_form):
+            declare_pending_message(E)
+            E.alloc()
+            h = make_header(E, 'hdr')
+            msg = E.bytes('msg', maxlen=65535)
+            h.attrs['length'] = S.len(msg)           # the length field describes the payload (Packet.create's contract)
+            E.assume(z3.Or(S.term(h.count, 'int') == 0, z3.And(S.term(h.count, 'int') == 1, ops.blen(msg.t) >= 2)))
+            h20 = E.bytes('h20', length=20)
+            tail = E.bytes('tail')
+            if _form == 'sealed':
+                key = E.bytes('key', length=16)
+                iv = ops.seq_slice_term(h20.t, 0, 12)
+                ct = libspec.ENC(key.t, iv, h20.t, msg.t)
+                ops.set_len_term(ct, ops.blen(msg.t) + 16)
+                E.assume(z3.And(libspec.DEC_OK(key.t, iv, h20.t, ct), libspec.DEC(key.t, iv, h20.t, ct) == msg.t))
+                dg = ops.mk_concat([h20.t, ct, tail.t])
+            else:
+                key = None
+                E.assume(z3.Or(*[S.term(h.pkt_type.value, 'int') == v for v in (1, 2)]))
+                E.assume(S.term(h.count, 'int') == 1)
+                body = ops.mk_concat([h20.t, msg.t])
+                crc = libspec.CRC(body)
+                E.assume(z3.And(crc >= 0, crc <= 2 ** 32 - 1))
+                dg = ops.mk_concat([body, S.term(E.pack('>L', Sym(crc, 'int'))), tail.t])
+            E.ghost('msg', msg)
+            return dict(hdr=h, key=key, datagram=Sym(dg, 'bytes'))
+        loops = {0: LoopSpec(invariant={}, havoc=FB_LOOP_HAVOC, havoc_kinds={'msgs': msgs_kind}, label='split-loop')}
+        ensures = {
+            'same-payload-bytes': lambda result, ghost: S.eq(result.msg, ghost.msg),
+            'same-single-message': lambda hdr, result, ghost, E: single_message_clause(hdr, result, ghost, E),
+        }
+
+
+def single_message_clause(hdr, result, ghost, E):
+    msgs = result.msgs
+    n = len(msgs.items) if isinstance(msgs, PyList) else None
+    if n == 0:
+        return S.eq(hdr.count, 0)
+    if n == 1:
+        m = E.elem(msgs, 0)
+        return (S.eq(hdr.count, 1) & S.eq(S.ival(m.seq), S.upk('H', S.slice(ghost.msg, 0, 2)))
+                & S.eq(m.payload, S.slice(ghost.msg, 2, S.len(ghost.msg))) & S.eq(m.type.value, hdr.pkt_type.value))
+    return False
